@@ -373,3 +373,52 @@ def h3(ctx):
         ctx.check('binding/%s/strict-default' % name, d in ('False', 'false', '0'),
                   '%s defaults to strict=false' % name,
                   '%s: default of strict is %r' % (name, d), b.node.loc)
+
+
+PAYLOAD_FIELDS = ('node_data', 'node_entries', 'original_keys')
+
+
+@rule('H5', floor=6, title='node metadata is compared by value (Python ==), never by object identity')
+def h5(ctx):
+    """A node's payload is an arbitrary Python object: a class, a deque maxlen, a default factory, a
+    key list, custom metadata.  Equal payloads need not be the same object (`deque.maxlen` makes a
+    fresh int above the small-int cache; key lists are per-treespec copies), so every comparison
+    of a payload field of a node with another object goes through `equal` / `not_equal`; `is` /
+    `is_not` / a pointer comparison on it makes equal structures differ."""
+    prog = ctx.cxx()
+    n = 0
+    for f in live_funcs(prog):
+        if f.body is None or not (f.file or '').startswith('src/treespec/'):
+            continue
+        for c in f.body.walk():
+            by_value = by_ident = None
+            if c.kind == 'CXXMemberCallExpr' and c.callee_name() in ('equal', 'not_equal', 'is', 'is_not'):
+                ops = [c.call_base()] + [a for a in c.call_args() if a is not None]
+                kindcall = c.callee_name()
+            elif c.kind == 'BinaryOperator' and c.op in ('==', '!=') and len(c.kids) == 2 and \
+                    all(k is not None and any(x.kind == 'CXXMemberCallExpr' and x.callee_name() == 'ptr'
+                                              for x in k.walk()) for k in c.kids):
+                ops = list(c.kids)
+                kindcall = 'ptr() ' + c.op
+            else:
+                continue
+            payload = []
+            for o_ in ops:
+                if o_ is None:
+                    continue
+                for m in o_.walk():
+                    if m.kind == 'MemberExpr' and m.name in PAYLOAD_FIELDS and _base_is(m, 'Node'):
+                        payload.append(m.name)
+            if not payload:
+                continue
+            # comparing a payload with the None singleton by identity is fine
+            if any(o_ is not None and 'none' in o_.text(3).lower() for o_ in ops):
+                continue
+            n += 1
+            ok = kindcall in ('equal', 'not_equal')
+            ctx.check('%s/%s/%s' % (short(f), payload[0], kindcall.replace(' ', '')), ok,
+                      '%s compares %s by value' % (inst(f), payload[0]),
+                      '%s compares %s with `%s`: equal metadata that is not the same object (a deque '
+                      'maxlen above 256, a key list, custom metadata) makes equal structures differ'
+                      % (inst(f), payload[0], kindcall), c.loc)
+    ctx.analysed['payload_comparisons'] = n
